@@ -6,6 +6,7 @@ package c06
 import (
 	"fmt"
 	"strings"
+	"time"
 	"unsafe"
 
 	"github.com/ohler55/slip"
@@ -221,5 +222,45 @@ func Run(ctx *common.Ctx) {
 	header := "From C06 Require Import Model Spec Corr.\n"
 	footer := "Definition res := Eval vm_compute in check_all cases.\nPrint res.\nDefinition gcount := Eval vm_compute in guard_count cases.\nPrint gcount.\n"
 	ctx.WriteShards("cases", header, "case", footer, terms, descs, 16)
+	runtimeSlices(ctx)
 	ctx.ReplayKnownLisp()
+}
+
+
+// runtimeSlices: the same slice idiom inside the runtime (pkg/generic/defmethod.go, one of the property's
+// anchors): a method added late to an inherited flavor is inserted into the inheriting flavor's combination
+// slice; with spare capacity an in-place insertion must not overwrite the entries behind it. Decided on the
+// implementation alone: the daemons of a message must run once each, in component order, followed by the primary.
+func runtimeSlices(ctx *common.Ctx) {
+	s := slip.NewScope()
+	n := 0
+	for k := 3; k <= 9; k++ {
+		for j := 0; j < k; j++ {
+			n++
+			pre := fmt.Sprintf("rs%d-%d-", k, j)
+			var sb strings.Builder
+			sb.WriteString("(defvar *rs-tr* nil) ")
+			var comps, want []string
+			for i := 0; i < k; i++ {
+				fmt.Fprintf(&sb, "(defflavor %sf%d () ()) ", pre, i)
+				if i != j {
+					fmt.Fprintf(&sb, "(defmethod (%sf%d :before :go) () (setq *rs-tr* (cons %d *rs-tr*))) ", pre, i, i)
+				}
+				comps = append(comps, fmt.Sprintf("%sf%d", pre, i))
+				want = append(want, fmt.Sprint(i))
+			}
+			fmt.Fprintf(&sb, "(defmethod (%sf%d :go) () (setq *rs-tr* (cons 100 *rs-tr*))) ", pre, k-1)
+			fmt.Fprintf(&sb, "(defflavor %sleaf () (%s)) ", pre, strings.Join(comps, " "))
+			fmt.Fprintf(&sb, "(defmethod (%sf%d :before :go) () (setq *rs-tr* (cons %d *rs-tr*))) ", pre, j, j)
+			fmt.Fprintf(&sb, "(setq *rs-tr* nil) (send (make-instance '%sleaf) :go) (reverse *rs-tr*)", pre)
+			o := common.EvalTimeout(s, sb.String(), 5*time.Second)
+			ctx.Meta.Evaluations++
+			ctx.Hist("runtime-slice-insertion")
+			expect := "(" + strings.Join(want, " ") + " 100)"
+			if o.Err != "" || o.Printed != expect {
+				ctx.Violate("inserting a late method into an inherited combination list lost or duplicated entries behind the insertion point",
+					map[string]any{"components": k, "late_daemon_on_component": j, "program": sb.String()}, common.ShowOutcome(o), expect)
+			}
+		}
+	}
 }
